@@ -1,8 +1,545 @@
-//! C06 — not built yet.
+//! C06 — results stay valid, API variants agree bit-for-bit, bad operands are refused.
+//!  (a) E2 exploration (same as C02) with the forms/validity/refusal oracles on every transition
+//!  (b) E1 corruption matrix: entry point x operand position x single-field corruption
+use crate::e2::*;
 use crate::engine::*;
+use crate::he::*;
+use heathcliff::*;
+use num_complex::Complex;
+use serde::{Deserialize, Serialize};
 
-pub fn describe(_rep: &Report) {}
+pub fn describe(rep: &Report) {
+    rep.set_rule(
+        "(a) every transition of the E2 exploration (programs to depth 2 + abstract fixpoint, see C02) is executed in its in-place, destination and \
+         value-returning form from identical clones: results must be byte-identical incl. metadata, read-only operands unchanged, results \
+         is_valid_for(context) with a buffer of exactly size*k*N words, and operand tuples the model declares ill-typed (different levels, \
+         representation the operation does not accept, size overflow, missing key power) must be refused. (b) corruption matrix: case = \
+         (scheme, entry point, operand position, corruption); a baseline call with valid operands must succeed, the same call with exactly one \
+         field corrupted must be refused (panic or Err) and must leave the read-only operands untouched. non-trivial = baseline succeeded and the \
+         corrupted call was executed.",
+    );
+    rep.assume("refusal = panic or Err; first operand of in-place forms is not required to be preserved on refusal");
+    rep.assume("flipping only the NTT flag of a valid ciphertext is not a corruption (it is a valid object in the other representation) and is covered by (a)");
+}
 
-pub fn sections(_cfg: &RunCfg) -> Vec<Box<dyn AnySection>> {
-    vec![]
+#[derive(Serialize, Deserialize, Clone, Copy, Debug, PartialEq, Eq, Hash)]
+pub enum Corr {
+    ResidueEqQ,
+    ResidueMax,
+    ForeignParms,
+    KeyLevelParms,
+    ZeroParms,
+    Size1,
+    Size17,
+    BufferShort,
+    BufferLong,
+    DegreeField,
+    CmsField,
+    Scale0,
+    Scale2,
+    Cf0,
+    CfT,
+    CfT1,
+    Cf2,
+    Seeded,
+    // plaintext corruptions
+    PlainCoeffEqT,
+    PlainTooLong,
+    PlainNttForeign,
+    PlainNttKeyLevel,
+    PlainNttResidueEqQ,
+    PlainNttShort,
+    // key corruptions
+    KeysSeeded,
+    KeysForeign,
+}
+
+const CT_CORR: [Corr; 18] = [
+    Corr::ResidueEqQ, Corr::ResidueMax, Corr::ForeignParms, Corr::KeyLevelParms, Corr::ZeroParms, Corr::Size1, Corr::Size17, Corr::BufferShort,
+    Corr::BufferLong, Corr::DegreeField, Corr::CmsField, Corr::Scale0, Corr::Scale2, Corr::Cf0, Corr::CfT, Corr::CfT1, Corr::Cf2, Corr::Seeded,
+];
+const PT_CORR: [Corr; 6] = [Corr::PlainCoeffEqT, Corr::PlainTooLong, Corr::PlainNttForeign, Corr::PlainNttKeyLevel, Corr::PlainNttResidueEqQ, Corr::PlainNttShort];
+const KEY_CORR: [Corr; 2] = [Corr::KeysSeeded, Corr::KeysForeign];
+
+#[derive(Serialize, Deserialize, Clone, Copy, Debug, PartialEq, Eq, Hash)]
+pub enum Op {
+    Negate,
+    Add,
+    Sub,
+    Multiply,
+    Square,
+    Relinearize,
+    ModSwitchNext,
+    ModSwitchTo,
+    Transform,
+    RescaleNext,
+    ApplyGalois,
+    Rotate,
+    Conjugate,
+    AddMany,
+    AddPlain,
+    SubPlain,
+    MultiplyPlain,
+    Decrypt,
+    NoiseBudget,
+    Encrypt,
+    EncryptSymmetric,
+    TransformPlainToNtt,
+    ModSwitchPlainNext,
+    KeySwitch,
+}
+
+const OPS: [Op; 24] = [
+    Op::Negate, Op::Add, Op::Sub, Op::Multiply, Op::Square, Op::Relinearize, Op::ModSwitchNext, Op::ModSwitchTo, Op::Transform, Op::RescaleNext,
+    Op::ApplyGalois, Op::Rotate, Op::Conjugate, Op::AddMany, Op::AddPlain, Op::SubPlain, Op::MultiplyPlain, Op::Decrypt, Op::NoiseBudget, Op::Encrypt,
+    Op::EncryptSymmetric, Op::TransformPlainToNtt, Op::ModSwitchPlainNext, Op::KeySwitch,
+];
+
+#[derive(Serialize, Deserialize, Clone, Debug)]
+pub struct CCase {
+    pub spec: ParamSpec,
+    pub op: Op,
+    /// 0/1 = ciphertext operand position, 2 = plaintext operand, 3 = key operand
+    pub pos: u8,
+    pub corr: Corr,
+}
+
+struct World {
+    kit: Kit,
+    a: Ciphertext,
+    b: Ciphertext,
+    a3: Ciphertext, // size 3 (product), for relinearize
+    seeded: Ciphertext,
+    plain: Plaintext,      // operand for add_plain etc. (scheme-appropriate form)
+    plain_coef: Plaintext, // coefficient-form plaintext for encrypt (BFV/BGV) / NTT plaintext (CKKS)
+    relin: RelinKeys,
+    relin_seeded: RelinKeys,
+    galois: GaloisKeys,
+    galois_seeded: GaloisKeys,
+    ksk: KSwitchKeys,
+    foreign: std::sync::Arc<HeContext>,
+    foreign_relin: RelinKeys,
+    foreign_galois: GaloisKeys,
+}
+
+fn world(spec: &ParamSpec, seed: u64) -> Result<World, String> {
+    env_real(seed, crate::engine::h64(&("c06-world", spec)));
+    let kit = Kit::new(spec)?;
+    let n = spec.n;
+    let (pa, pb, plain, plain_coef);
+    if spec.scheme == Scheme::CKKS {
+        let enc = CKKSEncoder::new(kit.ctx.clone());
+        let scale = (1u64 << 20) as f64;
+        let v: Vec<Complex<f64>> = (0..n / 2).map(|i| Complex::new(1.0 + i as f64, -0.5)).collect();
+        pa = enc.encode_c64_array_new(&v, None, scale);
+        pb = enc.encode_c64_array_new(&v, None, scale);
+        plain = pa.clone();
+        plain_coef = pa.clone();
+    } else {
+        pa = kit.plain(&(0..n as u64).map(|i| (i + 1) % spec.t).collect::<Vec<_>>());
+        pb = kit.plain(&[2, 1]);
+        plain = pb.clone();
+        plain_coef = pb.clone();
+    }
+    let a = kit.enc.encrypt_new(&pa);
+    let b = kit.enc.encrypt_new(&pb);
+    let a3 = kit.eval.multiply_new(&a, &b);
+    let seeded = kit.enc.encrypt_symmetric_new(&pa);
+    if !seeded.contains_seed() {
+        return Err("parameter set too small to hold a seed".into());
+    }
+    let relin = kit.keygen.create_relin_keys(false);
+    let relin_seeded = kit.keygen.create_relin_keys(true);
+    let galois = kit.keygen.create_galois_keys(false);
+    let galois_seeded = kit.keygen.create_galois_keys(true);
+    let other = KeyGenerator::new(kit.ctx.clone());
+    let ksk = kit.keygen.create_keyswitching_key(other.secret_key(), false);
+    // a foreign context: same shape, different primes
+    let mut fq = crate::refmodel::bigu::primes_1_mod(2 * n as u64, 41, 2 * spec.q.len() + 1);
+    fq.retain(|p| !spec.q.contains(p));
+    fq.truncate(spec.q.len());
+    let fspec = ParamSpec { q: fq, ..spec.clone() };
+    let foreign = fspec.context();
+    let fk = KeyGenerator::new(foreign.clone());
+    let foreign_relin = fk.create_relin_keys(false);
+    let foreign_galois = fk.create_galois_keys(false);
+    Ok(World { kit, a, b, a3, seeded, plain, plain_coef, relin, relin_seeded, galois, galois_seeded, ksk, foreign, foreign_relin, foreign_galois })
+}
+
+fn corrupt_ct(w: &World, c: &Ciphertext, corr: Corr) -> Option<Ciphertext> {
+    let spec = &w.kit.spec;
+    let cd = w.kit.ctx.get_context_data(c.parms_id())?;
+    let q0 = cd.parms().coeff_modulus()[0].value();
+    let mut x = c.clone();
+    let rebuild = |size: usize, cms: usize, deg: usize, data: Vec<u64>| Ciphertext::from_members(size, cms, deg, data, *c.parms_id(), c.scale(), c.correction_factor(), c.is_ntt_form());
+    let poly = c.poly_modulus_degree() * c.coeff_modulus_size();
+    match corr {
+        Corr::ResidueEqQ => x.data_mut()[0] = q0,
+        Corr::ResidueMax => *x.data_mut().last_mut()? = u64::MAX,
+        Corr::ForeignParms => x.set_parms_id(*w.foreign.first_parms_id()),
+        Corr::KeyLevelParms => {
+            if w.kit.ctx.key_parms_id() == w.kit.ctx.first_parms_id() {
+                return None;
+            }
+            x.set_parms_id(*w.kit.ctx.key_parms_id())
+        }
+        Corr::ZeroParms => x.set_parms_id(PARMS_ID_ZERO),
+        Corr::Size1 => x = rebuild(1, c.coeff_modulus_size(), c.poly_modulus_degree(), c.data()[..poly].to_vec()),
+        Corr::Size17 => {
+            let mut d = vec![];
+            for _ in 0..17 {
+                d.extend_from_slice(&c.data()[..poly]);
+            }
+            x = rebuild(17, c.coeff_modulus_size(), c.poly_modulus_degree(), d)
+        }
+        Corr::BufferShort => {
+            x.data_mut().pop();
+        }
+        Corr::BufferLong => x.data_mut().push(0),
+        Corr::DegreeField => x = rebuild(c.size(), c.coeff_modulus_size(), c.poly_modulus_degree() * 2, c.data().clone()),
+        Corr::CmsField => x = rebuild(c.size(), c.coeff_modulus_size() + 1, c.poly_modulus_degree(), c.data().clone()),
+        Corr::Scale0 => x.set_scale(0.0),
+        Corr::Scale2 => {
+            if spec.scheme == Scheme::CKKS {
+                return None;
+            }
+            x.set_scale(2.0)
+        }
+        Corr::Cf0 => {
+            if spec.scheme != Scheme::BGV {
+                return None;
+            }
+            x.set_correction_factor(0)
+        }
+        Corr::CfT => {
+            if spec.scheme != Scheme::BGV {
+                return None;
+            }
+            x.set_correction_factor(spec.t)
+        }
+        Corr::CfT1 => {
+            if spec.scheme != Scheme::BGV {
+                return None;
+            }
+            x.set_correction_factor(spec.t + 1)
+        }
+        Corr::Cf2 => {
+            if spec.scheme == Scheme::BGV {
+                return None;
+            }
+            x.set_correction_factor(2)
+        }
+        Corr::Seeded => {
+            if c.size() != 2 {
+                return None;
+            }
+            x = w.seeded.clone()
+        }
+        _ => return None,
+    }
+    Some(x)
+}
+
+fn corrupt_pt(w: &World, p: &Plaintext, corr: Corr) -> Option<Plaintext> {
+    let spec = &w.kit.spec;
+    let mut x = p.clone();
+    let ckks = spec.scheme == Scheme::CKKS;
+    match corr {
+        Corr::PlainCoeffEqT => {
+            if ckks || p.is_ntt_form() {
+                return None;
+            }
+            x.data_mut()[0] = spec.t
+        }
+        Corr::PlainTooLong => {
+            if ckks || p.is_ntt_form() {
+                return None;
+            }
+            x.resize(spec.n + 1);
+            x.data_mut()[spec.n] = 1;
+        }
+        Corr::PlainNttForeign => {
+            if !p.is_ntt_form() {
+                return None;
+            }
+            x.set_parms_id(*w.foreign.first_parms_id())
+        }
+        Corr::PlainNttKeyLevel => {
+            if !p.is_ntt_form() || w.kit.ctx.key_parms_id() == w.kit.ctx.first_parms_id() {
+                return None;
+            }
+            x.set_parms_id(*w.kit.ctx.key_parms_id())
+        }
+        Corr::PlainNttResidueEqQ => {
+            if !p.is_ntt_form() {
+                return None;
+            }
+            let cd = w.kit.ctx.get_context_data(p.parms_id())?;
+            x.data_mut()[0] = cd.parms().coeff_modulus()[0].value();
+        }
+        Corr::PlainNttShort => {
+            if !p.is_ntt_form() {
+                return None;
+            }
+            // keep the parms id, shorten the buffer: set_coeff_count via resize is guarded for NTT plaintexts, so pop from data
+            x.data_mut().pop();
+        }
+        _ => return None,
+    }
+    Some(x)
+}
+
+/// Runs `op` on the given operands; Ok = computed, Err = refused. Only reference-taking forms are
+/// used so that the operands can be compared afterwards.
+#[allow(clippy::too_many_arguments)]
+fn run(w: &World, op: Op, a: &Ciphertext, b: &Ciphertext, a3: &Ciphertext, p: &Plaintext, rk: &RelinKeys, gk: &GaloisKeys, ksk: &KSwitchKeys) -> Option<Result<(), String>> {
+    let ev = &w.kit.eval;
+    let scheme = w.kit.spec.scheme;
+    let ckks = scheme == Scheme::CKKS;
+    let r = |f: &dyn Fn()| guard(f);
+    Some(match op {
+        Op::Negate => r(&|| drop(ev.negate_new(a))),
+        Op::Add => r(&|| drop(ev.add_new(a, b))),
+        Op::Sub => r(&|| drop(ev.sub_new(a, b))),
+        Op::Multiply => r(&|| drop(ev.multiply_new(a, b))),
+        Op::Square => r(&|| drop(ev.square_new(a))),
+        Op::Relinearize => r(&|| drop(ev.relinearize_new(a3, rk))),
+        Op::ModSwitchNext => r(&|| drop(ev.mod_switch_to_next_new(a))),
+        Op::ModSwitchTo => r(&|| drop(ev.mod_switch_to_new(a, w.kit.ctx.last_parms_id()))),
+        Op::Transform => {
+            if scheme == Scheme::BFV {
+                r(&|| drop(ev.transform_to_ntt_new(a)))
+            } else {
+                r(&|| drop(ev.transform_from_ntt_new(a)))
+            }
+        }
+        Op::RescaleNext => {
+            if !ckks {
+                return None;
+            }
+            r(&|| drop(ev.rescale_to_next_new(a)))
+        }
+        Op::ApplyGalois => r(&|| drop(ev.apply_galois_new(a, 3, gk))),
+        Op::Rotate => {
+            if ckks {
+                r(&|| drop(ev.rotate_vector_new(a, 1, gk)))
+            } else {
+                r(&|| drop(ev.rotate_rows_new(a, 1, gk)))
+            }
+        }
+        Op::Conjugate => {
+            if ckks {
+                r(&|| drop(ev.complex_conjugate_new(a, gk)))
+            } else {
+                r(&|| drop(ev.rotate_columns_new(a, gk)))
+            }
+        }
+        Op::AddMany => r(&|| drop(ev.add_many_new(&[b.clone(), a.clone(), b.clone()]))),
+        Op::AddPlain => r(&|| drop(ev.add_plain_new(a, p))),
+        Op::SubPlain => r(&|| drop(ev.sub_plain_new(a, p))),
+        Op::MultiplyPlain => r(&|| drop(ev.multiply_plain_new(a, p))),
+        Op::Decrypt => r(&|| drop(w.kit.dec.decrypt_new(a))),
+        Op::NoiseBudget => {
+            if scheme != Scheme::BFV {
+                return None;
+            }
+            r(&|| drop(w.kit.dec.invariant_noise_budget(a)))
+        }
+        Op::Encrypt => r(&|| drop(w.kit.enc.encrypt_new(p))),
+        Op::EncryptSymmetric => r(&|| drop(w.kit.enc.encrypt_symmetric_new(p))),
+        Op::TransformPlainToNtt => {
+            if ckks {
+                return None;
+            }
+            r(&|| drop(ev.transform_plain_to_ntt_new(p, w.kit.ctx.first_parms_id())))
+        }
+        Op::ModSwitchPlainNext => {
+            if !p.is_ntt_form() {
+                return None;
+            }
+            r(&|| drop(ev.mod_switch_to_next_plain_new(p)))
+        }
+        Op::KeySwitch => r(&|| drop(ev.apply_keyswitching_new(a, ksk))),
+    })
+}
+
+/// An arithmetic-overflow panic exists only in builds with overflow checks (this harness, the
+/// project's own test profile); without them the same input would silently be computed on, so it
+/// does not count as a refusal. Index / unwrap / argument-check panics fire in every build profile.
+fn is_crash(msg: &str) -> bool {
+    msg.contains("attempt to") && msg.contains("overflow")
+}
+
+fn uses(op: Op) -> (bool, bool, bool, bool) {
+    // (uses ct a / a3, uses ct b, uses plain, uses keys)
+    match op {
+        Op::Add | Op::Sub | Op::Multiply | Op::AddMany => (true, true, false, false),
+        Op::AddPlain | Op::SubPlain | Op::MultiplyPlain => (true, false, true, false),
+        Op::Encrypt | Op::EncryptSymmetric | Op::TransformPlainToNtt | Op::ModSwitchPlainNext => (false, false, true, false),
+        Op::Relinearize | Op::ApplyGalois | Op::Rotate | Op::Conjugate | Op::KeySwitch => (true, false, false, true),
+        _ => (true, false, false, false),
+    }
+}
+
+fn check(c: &CCase, seed: u64) -> CaseOut {
+    let w = match world(&c.spec, seed) {
+        Ok(w) => w,
+        Err(e) => return CaseOut::skip(&format!("world: {e}")),
+    };
+    let (ua, ub, up, uk) = uses(c.op);
+    // operand whose corruption is requested
+    let applicable = match c.pos {
+        0 => ua,
+        1 => ub,
+        2 => up,
+        3 => uk,
+        _ => false,
+    };
+    if !applicable {
+        return CaseOut::skip("operand position not used by this entry point");
+    }
+    // plaintext operand in the form the entry point expects
+    let plain = match c.op {
+        Op::Encrypt | Op::EncryptSymmetric | Op::TransformPlainToNtt => w.plain_coef.clone(),
+        Op::ModSwitchPlainNext => {
+            if c.spec.scheme == Scheme::CKKS {
+                w.plain.clone()
+            } else {
+                match guard(|| w.kit.eval.transform_plain_to_ntt_new(&w.plain_coef, w.kit.ctx.first_parms_id())) {
+                    Ok(p) => p,
+                    Err(e) => return CaseOut::fail(format!("corrupt:{:?}:baseline-plain-transform", c.spec.scheme), "valid plaintext transforms", e),
+                }
+            }
+        }
+        Op::MultiplyPlain if matches!(c.corr, Corr::PlainNttForeign | Corr::PlainNttKeyLevel | Corr::PlainNttResidueEqQ | Corr::PlainNttShort) && c.spec.scheme != Scheme::CKKS => {
+            // NTT-form plaintext operand (accepted by multiply_plain)
+            let lvl = *w.a.parms_id();
+            match guard(|| w.kit.eval.transform_plain_to_ntt_new(&w.plain_coef, &lvl)) {
+                Ok(p) => p,
+                Err(e) => return CaseOut::fail(format!("corrupt:{:?}:baseline-plain-transform", c.spec.scheme), "valid plaintext transforms", e),
+            }
+        }
+        _ => w.plain.clone(),
+    };
+    // baseline
+    match run(&w, c.op, &w.a, &w.b, &w.a3, &plain, &w.relin, &w.galois, &w.ksk) {
+        None => return CaseOut::skip("entry point not applicable to this scheme"),
+        Some(Err(e)) => {
+            return CaseOut::fail(format!("corrupt:{:?}:{:?}:baseline-refused:{}", c.spec.scheme, c.op, panic_class(&e)), "valid operands are accepted", e);
+        }
+        Some(Ok(())) => {}
+    }
+    // corrupted operands
+    let (mut a, mut b, mut a3, mut p) = (w.a.clone(), w.b.clone(), w.a3.clone(), plain.clone());
+    let (mut rk, mut gk, mut ksk) = (w.relin.clone(), w.galois.clone(), w.ksk.clone());
+    match c.pos {
+        0 => {
+            if c.op == Op::Relinearize {
+                match corrupt_ct(&w, &w.a3, c.corr) {
+                    Some(x) => a3 = x,
+                    None => return CaseOut::skip("corruption not applicable"),
+                }
+            } else {
+                match corrupt_ct(&w, &w.a, c.corr) {
+                    Some(x) => a = x,
+                    None => return CaseOut::skip("corruption not applicable"),
+                }
+            }
+        }
+        1 => match corrupt_ct(&w, &w.b, c.corr) {
+            Some(x) => b = x,
+            None => return CaseOut::skip("corruption not applicable"),
+        },
+        2 => match corrupt_pt(&w, &plain, c.corr) {
+            Some(x) => p = x,
+            None => return CaseOut::skip("corruption not applicable"),
+        },
+        _ => match c.corr {
+            Corr::KeysSeeded => {
+                rk = w.relin_seeded.clone();
+                gk = w.galois_seeded.clone();
+                if c.op == Op::KeySwitch {
+                    let other = KeyGenerator::new(w.kit.ctx.clone());
+                    ksk = w.kit.keygen.create_keyswitching_key(other.secret_key(), true);
+                }
+            }
+            Corr::KeysForeign => {
+                rk = w.foreign_relin.clone();
+                gk = w.foreign_galois.clone();
+                if c.op == Op::KeySwitch {
+                    return CaseOut::skip("no foreign key-switching key in the matrix");
+                }
+            }
+            _ => return CaseOut::skip("corruption not applicable"),
+        },
+    }
+    let before = (ct_fingerprint(&a), ct_fingerprint(&b), ct_fingerprint(&a3), pt_fingerprint(&p));
+    let res = run(&w, c.op, &a, &b, &a3, &p, &rk, &gk, &ksk).unwrap();
+    let after = (ct_fingerprint(&a), ct_fingerprint(&b), ct_fingerprint(&a3), pt_fingerprint(&p));
+    let key = format!("corrupt:{:?}:{:?}:pos{}:{:?}", c.spec.scheme, c.op, c.pos, c.corr);
+    if before != after {
+        return CaseOut::fail(format!("{key}:operand-modified"), "read-only operands unchanged", "an operand changed");
+    }
+    match res {
+        Err(e) if is_crash(&e) => CaseOut::fail(
+            format!("{key}:crash:{}", panic_class(&e)),
+            "an explicit refusal (error result or argument-check panic), not an arithmetic/indexing crash inside the computation",
+            e,
+        ),
+        Err(e) => CaseOut::pass(true, h64(&panic_class(&e)), 2),
+        Ok(()) => CaseOut::fail(format!("{key}:accepted"), "the corrupted operand is refused (panic or Err)", "the operation computed a result"),
+    }
+}
+
+pub fn sections(cfg: &RunCfg) -> Vec<Box<dyn AnySection>> {
+    let seed = cfg.seed;
+    let mut v: Vec<Box<dyn AnySection>> = param_sets(cfg)
+        .into_iter()
+        .map(|(name, spec, depth, abs)| {
+            Box::new(E2Section {
+                name,
+                spec,
+                oracles: Oracles { ring: false, forms: true, budget: false },
+                judged: vec!["forms", "valid", "refusal"],
+                thorough: cfg.thorough(),
+                seed,
+                depth,
+                abstract_closure: abs,
+            }) as Box<dyn AnySection>
+        })
+        .collect();
+    // (b) corruption matrix
+    let mut specs = vec![
+        ParamSpec::new(Scheme::BFV, 8, chain(8, &[40, 40, 40, 40]), 17),
+        ParamSpec::new(Scheme::BGV, 8, chain(8, &[40, 40, 40, 40]), 17),
+        ParamSpec::new(Scheme::CKKS, 8, chain(8, &[40, 40, 40, 40]), 0),
+    ];
+    if cfg.thorough() {
+        specs.push(ParamSpec::new(Scheme::BFV, 16, chain(16, &[60, 30, 60]), 97));
+        specs.push(ParamSpec::new(Scheme::BGV, 4, chain(4, &[50, 50, 50, 50, 50]), 257));
+        specs.push(ParamSpec::new(Scheme::CKKS, 4, chain(4, &[60, 50, 40, 60]), 0));
+    }
+    let mut cases = vec![];
+    for spec in specs {
+        for op in OPS {
+            for pos in 0..2u8 {
+                for corr in CT_CORR {
+                    cases.push(CCase { spec: spec.clone(), op, pos, corr });
+                }
+            }
+            for corr in PT_CORR {
+                cases.push(CCase { spec: spec.clone(), op, pos: 2, corr });
+            }
+            for corr in KEY_CORR {
+                cases.push(CCase { spec: spec.clone(), op, pos: 3, corr });
+            }
+        }
+    }
+    v.push(E1::new(
+        "corruption_matrix",
+        "24 entry points x operand position x 26 single-field corruptions x {BFV, BGV, CKKS} (N=8, four 40-bit primes; thorough adds three more sets)",
+        cases.into_iter(),
+        move |c: &CCase| check(c, seed),
+    ));
+    v
 }
